@@ -369,6 +369,10 @@ func c16StreamRun(c c16StreamCase) (key, msg string, st c16StreamStats) {
 		}
 	}
 	if atomic.LoadInt32(&timedOut) == 1 {
+		if d := c16FirstDiff(obs, plan.exp); d < len(obs) {
+			return "stream:bytes-differ", fmt.Sprintf("Read results differ from the concatenation of the non-heartbeat messages at byte %d (got ..%s.. want ..%s..), and the reader then stalled",
+				d, c16Window(obs, d), c16Window(plan.exp, d)), st
+		}
 		if stream.consumed() {
 			// the code under test has taken every message and the terminal error from the stream, and
 			// the reader was still waiting c16StreamStall later
@@ -431,7 +435,7 @@ func c16StreamCheck(t vh.Fataler, rec *vh.Rec, c c16StreamCase) {
 		}
 	}
 	var st c16StreamStats
-	key, msg, extra := c16Timed(func() (string, string, map[string]bool) {
+	key, msg, extra := c16Timed(2*time.Second, func() (string, string, map[string]bool) {
 		var k, m string
 		for i := 0; i < runs; i++ {
 			k, m, st = c16StreamRun(c)
